@@ -15,10 +15,10 @@ TECHNIQUE = {
     "C16": _T_BASE + _T_TR.format(what="the reader's term level Decoder.ingest_*_entry / decode_iri / decode_literal and the LookupDecoder they drive (which ids are refused, with which exception)") + _T_DIFF,
     "C04": _T_BASE + _T_TR.format(what="the reader's term level Decoder.ingest_*_entry / decode_iri / decode_literal and the LookupDecoder they drive (which references resolve, which raise)") + _T_DIFF,
     "C01": _T_BASE + _T_TR.format(what="the term level of both sides: TermEncoder.encode_iri_indices / encode_literal and Decoder.ingest_*_entry / decode_iri / decode_literal, with the lookup classes") + _T_DIFF,
-    "C18": _T_BASE + _T_TR.format(what="the lookup classes (Lookup.insert / make_last_to_evict / encode_entry_index: the pinning logic) and the row bracket TermEncoder.start_row / end_row") + _T_DIFF,
-    "C20": _T_BASE + _T_TR.format(what="the row bracket TermEncoder.start_row / end_row (when a stream refuses to go on) and the pinning logic of the lookup classes") + _T_DIFF,
+    "C18": _T_BASE + _T_TR.format(what="the lookup classes (Lookup.insert / make_last_to_evict / encode_entry_index: the pinning logic) and the row bracket TermEncoder.start_row / end_row, and the statement functions encode_triple / encode_quad that apply it") + _T_DIFF,
+    "C20": _T_BASE + _T_TR.format(what="the statement functions encode_spo / encode_triple / encode_quad (roll-back of the repeated terms on a refusal), the row bracket TermEncoder.start_row / end_row (when a stream refuses to go on) and the pinning logic of the lookup classes") + _T_DIFF,
     "C03": _T_BASE + _T_TR.format(what="TermEncoder.encode_iri_indices / encode_literal and the lookup classes they drive (entry rows, ids, zero forms, oneof member)") + _T_DIFF + "; the Lean reference decoder run on the real bytes",
-    "C19": _T_BASE + _T_TR.format(what="TermEncoder.encode_iri_indices / encode_literal and the lookup classes (when an entry is sent, when an id is 0)") + _T_DIFF + "; row-level compression audit of the real bytes by the Lean referee",
+    "C19": _T_BASE + _T_TR.format(what="the statement functions encode_spo / encode_triple / encode_quad (elision of repeated terms), TermEncoder.encode_iri_indices / encode_literal and the lookup classes (when an entry is sent, when an id is 0)") + _T_DIFF + "; row-level compression audit of the real bytes by the Lean referee",
     "C06": _T_BASE + _T_TR.format(what="the frame-flow classes (serialize/flows.py)") + _T_DIFF,
     "C07": _T_BASE + _T_TR.format(what="the grouped frame-flow classes (serialize/flows.py)") + _T_DIFF,
     "C11": _T_BASE + _T_TR.format(what="the bounded frame-flow classes (serialize/flows.py)") + _T_DIFF,
